@@ -1495,6 +1495,26 @@ func (m *Monitors) onQuiescent() {
 			}
 		}
 	}
+	// C12: at a quiescent point a second or more after a Job's kill time (everything delivered, nothing
+	// runnable, no failed sync of the job controller waiting for its retry) every alive task the status
+	// lists has been asked to stop - whatever phase the Job is in
+	if !delayed["job"] {
+		now := w.Clk.Now()
+		for _, x := range jobs {
+			j := x.(*execution.Job)
+			kt := j.Spec.KillTimestamp
+			jr := m.jobs[string(j.UID)]
+			if kt == nil || jr == nil || now.Sub(kt.Time) < time.Second || j.DeletionTimestamp != nil {
+				continue
+			}
+			for _, r := range jr.Pods {
+				m.Evals["C12_quiescent"]++
+				if r.live() && r.Recorded && r.DelReqAt.IsZero() {
+					m.fail("C12", "alive-task-not-deleted-after-kill", "task %s of Job %s (phase %s) is alive and its deletion was never requested although the kill timestamp %s passed %v ago and the controllers are idle", r.Name, j.Name, j.Status.Phase, tsString(kt), now.Sub(kt.Time))
+				}
+			}
+		}
+	}
 	for _, o := range jcs {
 		jc := o.(*execution.JobConfig)
 		var act, que []string
@@ -1663,6 +1683,18 @@ func (m *Monitors) Fixpoint() {
 			m.Evals["C13_fix"]++
 			if !now.Before(f.FinishTimestamp.Add(ttl).Add(2 * time.Second)) {
 				m.fail("C13", "ttl-not-deleted", "finished Job %s (finish %v, TTL %v) still exists at the fixpoint (%v)", j.Name, f.FinishTimestamp.Sub(Epoch), ttl, now.Sub(Epoch))
+			}
+		}
+		// C12: once the kill time has passed every task still alive is deleted - whatever the Job's phase
+		// (a Job refused admission with other indexes' tasks alive included). Judged two minutes after the
+		// kill time at the earliest (write faults are finite); tasks the status never listed are the
+		// unrecorded-task finding, not this one.
+		if kt := j.Spec.KillTimestamp; kt != nil && now.Sub(kt.Time) >= 2*time.Minute && j.DeletionTimestamp == nil {
+			for _, r := range jr.Pods {
+				m.Evals["C12_fix"]++
+				if r.live() && r.Recorded && r.DelReqAt.IsZero() {
+					m.fail("C12", "alive-task-not-deleted-after-kill", "task %s of Job %s (phase %s) is alive and its deletion was never requested although the kill timestamp %s passed %v ago", r.Name, j.Name, j.Status.Phase, tsString(kt), now.Sub(kt.Time))
+				}
 			}
 		}
 		// C10 / C12 bounded progress for started Jobs that are not being deleted
